@@ -29,8 +29,10 @@ import (
 	"context"
 	"encoding/json"
 	"errors"
+	"flag"
 	"fmt"
 	"os"
+	"regexp"
 	"runtime"
 	"sort"
 	"strings"
@@ -52,14 +54,42 @@ const vfWait = 60 * time.Second // guard for every wait of the harness; expiry =
 
 func TestVerifC04_NeverLosesHeight(t *testing.T) {
 	defer vk.Flush()
-	_ = logging.SetLogLevel("das", "fatal")
+	vfPrepare(t)
 	rapid.Check(t, func(t *rapid.T) { vfRunMachine(t, "C04") })
 }
 
 func TestVerifC13_ProgressAndBounds(t *testing.T) {
 	defer vk.Flush()
-	_ = logging.SetLogLevel("das", "fatal")
+	vfPrepare(t)
 	rapid.Check(t, func(t *rapid.T) { vfRunMachine(t, "C13") })
+}
+
+var vfStepsRe = regexp.MustCompile(`rapid\.steps=(\d+)`)
+
+// vfPrepare silences the das logger and, when a saved counterexample is replayed
+// (bin/check --replay sets VERIF_REPLAY_FILE), restores the -rapid.steps value of the run that
+// produced it: rapid interprets the recorded bit stream of Repeat relative to that value, and
+// the replay command of the driver does not pass it.
+func vfPrepare(t *testing.T) {
+	_ = logging.SetLogLevel("das", "fatal")
+	if f := os.Getenv("VERIF_REPLAY_FILE"); f != "" {
+		data, err := os.ReadFile(f)
+		if err != nil {
+			t.Fatalf("VERIF-INFRA: replay file: %v", err)
+		}
+		if mm := vfStepsRe.FindSubmatch(data); mm != nil {
+			if err := flag.Set("rapid.steps", string(mm[1])); err != nil {
+				t.Fatalf("VERIF-INFRA: cannot set rapid.steps: %v", err)
+			}
+		}
+	}
+}
+
+func vfRapidSteps() string {
+	if f := flag.Lookup("rapid.steps"); f != nil {
+		return f.Value.String()
+	}
+	return "?"
 }
 
 // vfSigRetryCountReset: signature of the finding "a catch-up/recent job that reports a height as
@@ -288,6 +318,7 @@ func (m *vfMachine) setup(t *rapid.T) {
 	m.start, m.netHead = tail, head
 	m.labels[fmt.Sprintf("limit=%d", m.limit)] = true
 	m.labels[fmt.Sprintf("range=%d", m.srange)] = true
+	t.Logf("[replay needs rapid.steps=%s]", vfRapidSteps())
 
 	if rapid.IntRange(0, 4).Draw(t, "startKind") >= 3 {
 		// mid-chain: a checkpoint as an earlier run of the DASer would have left it
